@@ -17,7 +17,7 @@ from common import T_COMMON
 #                             shorter update): a result is a VALUE, no later update may change it in place. The same histories go
 #                             through c13.holds.linearizable with the return-time values. (Added after seeded change C13-m3 —
 #                             File.ApplyMessage recycling its previous buffer — was missed.)
-#   n = number of concurrent histories; plus n/2 c13.seq lines and n/8 one-client histories through the same oracle.
+#   n = number of concurrent histories (+ n/5 FILE histories, 2 lines each); plus n/2 c13.seq lines and n/8 one-client histories through the same oracle.
 # Extra: the same stream built with `go build -race`; a DATA RACE report (exit code 66) fails the extra.
 #   quick: one run in which the stream itself varies GOMAXPROCS 1/2/4/16 per history;
 #   thorough: additionally GOMAXPROCS pinned to 1, 2 and 16 from the environment.
